@@ -253,6 +253,9 @@ class FmtUnit(Unit):
 def build():
     u = FmtUnit('format', specs=['base.rs', 'rounding.rs', 'decimal.rs', 'strings.rs', 'std_format.rs'],
                 uses=['use core::cmp::min;'])   # format.rs: `use core::cmp::{min, Ordering}`
+    # the global commutativity broadcast (vgen) costs this unit its resource limit (string/sequence reasoning
+    # plus many product terms in the digit lemmas): switched off here
+    u.mul_comm = False
     u.raw(lambda mode: r7fmt.reset(), 'R7-reset')
     core_kernel.add_core_items(u)
     common.add_decimal(u, consts=False)
